@@ -706,15 +706,28 @@ Proof.
 Qed.
 
 (* ---- invalidation ---- *)
-Definition cleared (t : Z) (st : state) : Prop := forall p, leader_of st (t, p) = None.
+(* no cached leader for any partition of t, and has_metadata_for_topic(t) is False *)
+Definition cleared (t : Z) (st : state) : Prop :=
+  (forall p, leader_of st (t, p) = None) /\ has_metadata_for_topic st t = false.
+
+Lemma nometa_iff : forall st t, has_metadata_for_topic st t = false <-> zget t (s_tparts st) = None.
+Proof.
+  intros st t. unfold has_metadata_for_topic, dmem. destruct (zget t (s_tparts st)); split; intro H; congruence.
+Qed.
 
 Lemma cleared_reset_topic_same : forall st t, inv1 st -> cleared t (reset_topic st t).
-Proof. intros st t H p. unfold leader_of. apply reset_topic_cleared. exact H. Qed.
+Proof.
+  intros st t H. split.
+  - intro p. unfold leader_of. apply reset_topic_cleared. exact H.
+  - apply nometa_iff. rewrite reset_topic_tparts, Z.eqb_refl. reflexivity.
+Qed.
 
 Lemma cleared_reset_topic_mono : forall st t t', cleared t st -> cleared t (reset_topic st t').
 Proof.
-  intros st t t' H p. unfold cleared, leader_of in *. destruct (tget (t, p) (s_t2b (reset_topic st t'))) eqn:E; [|reflexivity].
-  apply reset_topic_t2b_sub in E. rewrite H in E. discriminate.
+  intros st t t' [H Hm]. split.
+  - intro p. unfold leader_of in *. destruct (tget (t, p) (s_t2b (reset_topic st t'))) eqn:E; [|reflexivity].
+    apply reset_topic_t2b_sub in E. rewrite H in E. discriminate.
+  - apply nometa_iff. apply nometa_iff in Hm. rewrite reset_topic_tparts. destruct (t =? t'); [reflexivity|exact Hm].
 Qed.
 
 Lemma handle_responses_facts : forall rs st group fail out st' res,
@@ -734,7 +747,8 @@ Lemma handle_responses_facts : forall rs st group fail out st' res,
   end.
 Proof.
   induction rs as [|r rest IH]; intros st group fail out st' res Hwf H; simpl in H.
-  - inversion H; subst. split; [exact Hwf|]. repeat split; auto; intros; simpl in *; tauto.
+  - inversion H; subst. split; [exact Hwf|]. split; [auto|]. split; [auto|]. split; [reflexivity|]. split; [reflexivity|].
+    split; [reflexivity|]. split; intros; simpl in *; tauto.
   - assert (Hcont : forall st1, WF st1 ->
         (forall t, cleared t st -> cleared t st1) ->
         (forall g, zget g (s_g2c st) = None -> zget g (s_g2c st1) = None) ->
@@ -762,7 +776,8 @@ Proof.
       - destruct R2 as [Ra Rb]. split.
         + intros r0 [<-|Hin] He; [apply C2, T1, He|apply Ra; assumption].
         + intros r0 g [<-|Hin] He Hg; [apply G2, (Gr1 g He Hg)|eapply Rb; eassumption].
-      - destruct R2 as [Hf [r0 [Hin [He [Hne [Ht Hg]]]]]]. split; [exact Hf|]. exists r0. repeat split; auto. right. exact Hin.
+      - destruct R2 as [Hf [r0 [Hin [He [Hne [Ht Hg]]]]]]. split; [exact Hf|]. exists r0.
+        split; [right; exact Hin|]. split; [exact He|]. split; [exact Hne|]. split; [exact Ht|exact Hg].
       - exact R2. }
     destruct (r_err r =? 0) eqn:E0.
     + apply Z.eqb_eq in E0. apply (Hcont st); [exact Hwf|auto|auto|reflexivity|reflexivity|reflexivity
@@ -784,7 +799,7 @@ Proof.
              [apply reset_topic_WF; exact Hwf|intros t Ht; apply cleared_reset_topic_mono; exact Ht
              |intros g Hg; rewrite Fg; exact Hg|exact Fb|exact Fc|exact Fk|intros _; exact Hcl|exact Hgr|exact H].
       * destruct (is_group_err (r_err r)) eqn:Eg.
-        -- destruct group as [g|]; [|inversion H; subst; split; [exact Hwf|repeat split; auto]].
+        -- destruct group as [g|]; [|inversion H; subst; split; [exact Hwf|]; split; [auto|]; split; [auto|]; split; [reflexivity|]; split; [reflexivity|]; split; reflexivity].
            assert (Hg0 : zget g (s_g2c (reset_group st g)) = None) by (simpl; apply zget_del_same).
            assert (Hgm : forall g', zget g' (s_g2c st) = None -> zget g' (s_g2c (reset_group st g)) = None).
            { intros g' Hn. simpl. apply dget_ddel_none. exact Hn. }
